@@ -2755,3 +2755,196 @@ def run_C14(ctx):
 
 
 register("C14", ["Guard.Properties.C14"], run_C14)
+
+
+# =============================================================================== C19
+
+def c19_template(g, clean=True):
+    types = ["AWS::S3::Bucket", "AWS::EC2::Volume", "Custom::Thing"][: g.ch([1, 2, 3])]
+    strs = ["a", "b", "us-west-2b", "x y", "10", "true", "é"] + ([] if clean else [" lead", "trail "])
+    pnames = {t: g.r.sample(["Size", "Name", "Enc", "Zone", "Tags", "Cfg"], g.ch([1, 2, 3])) for t in types}
+    res = {}
+    for i in range(g.ch([1, 2, 3, 4, 5])):
+        t = g.ch(types)
+        props = {}
+        for p in pnames[t]:          # clean: every resource of a type has the same property names
+            k = g.r.randrange(8)
+            if k < 3:
+                v = g.ch(strs)
+            elif k < 5:
+                v = g.ch([1, 2, 50, 500, -1])
+            elif k < 6:
+                v = g.ch([True, False])
+            elif k < 7:
+                v = [g.ch(strs), g.ch([1, 2])]
+            else:
+                v = {"k": g.ch(strs), "n": [g.ch([1, 2])]}
+            props[p] = v
+        res["R%d" % i] = {"Type": t, "Properties": props}
+    return {"Resources": res}
+
+
+def render_value(v):
+    """`gen_rules`'s rendering of a property value"""
+    if isinstance(v, str):
+        return '"' + v.strip().replace("\n", "") + '"'
+    return json.dumps(v, separators=(",", ":"), ensure_ascii=False).strip().replace("\n", "")
+
+
+def typed_to_py(t):
+    k = t["t"]
+    if k == "null":
+        return None
+    if k in ("str", "regex", "char"):
+        return t["v"]
+    if k == "bool":
+        return t["v"]
+    if k == "int":
+        return int(t["v"])
+    if k == "float":
+        import struct
+        return struct.unpack("<d", struct.pack("<Q", int(t["v"])))[0]
+    if k == "list":
+        return [typed_to_py(x) for x in t["v"]]
+    if k == "map":
+        return {kk: typed_to_py(x) for kk, x in zip(t["k"], t["v"])}
+    return ("range", t)
+
+
+def emitted_rule_map(ast):
+    """{rule name: {property: [python values]}} from the AST of the emitted rules"""
+    out = {}
+    for r in ast["rules"]:
+        props = {}
+        for line in r["block"]["cnf"]:
+            for c in line:
+                parts = c["q"]["parts"]
+                names = [p_["k"] for p_ in parts if p_["t"] == "key"]
+                pname = names[-1]
+                lit = typed_to_py(c["with"]["v"])
+                vals = lit if (c["cmp"][0] == "In" and isinstance(lit, list)) else [lit]
+                props[pname] = vals
+        out[r["name"]] = props
+    return out
+
+
+def c19_list_mixed(t):
+    """a (type, property) with >= 2 distinct values of which one is a list while the value printed first
+    (sorted rendering) is not a list: the emitted `IN [scalar, [..]]` reads the list-valued property as a subset test"""
+    by = {}
+    for r in t["Resources"].values():
+        for p, v in (r.get("Properties") or {}).items():
+            by.setdefault((r["Type"], p), []).append(v)
+    for vals in by.values():
+        rend = sorted({render_value(v) for v in vals})
+        if len(rend) >= 2 and any(isinstance(v, list) for v in vals) and not rend[0].startswith("["):
+            return True
+    return False
+
+
+def run_C19(ctx):
+    res = Result("generated CloudFormation-shaped templates (1..5 resources over 1..3 types; scalar string/int/bool and nested "
+                 "list/map property values; repeated and distinct values; resources of a type share their property names) -> "
+                 "real `rulegen` -> real parser -> real `validate` of the source template against the emitted rules (every rule "
+                 "must PASS); then every scalar property occurrence mutated to a fresh value (the corresponding rule must FAIL); "
+                 "the emitted clauses are compared with the Lean rule map; non-trivial = template with >= 1 emitted rule")
+    n = 1500 if ctx.thorough() else 150
+    temps = []
+    for i in range(n):
+        g = gen.G(ctx.seed * 3700001 + i)
+        temps.append(c19_template(g))
+    # canonical known findings
+    known = []
+    kdir = os.path.join(VERIF, "corpus", "known")
+    for f in sorted(os.listdir(kdir)):
+        k = json.load(open(os.path.join(kdir, f)))
+        if k.get("property") == "C19":
+            known.append(k)
+            temps.append(json.loads(k["template"]))
+    jobs = [{"argv": ["rulegen", "-t", "{DIR}/t.json"], "files": {"t.json": json.dumps(t)}} for t in temps]
+    outs = vlib.run_cli_many(jobs)
+    # parse emitted rules + validate source against them
+    creqs = [{"id": i, "op": "case", "rules": o["stdout"], "data": json.dumps(t)} for i, (t, o) in enumerate(zip(temps, outs))]
+    cresp = ctx.hp.map(creqs)
+    # model rule map
+    mreqs = []
+    for i, t in enumerate(temps):
+        rs = []
+        for r in t["Resources"].values():
+            if isinstance(r.get("Properties"), dict):
+                rs.append({"type": r["Type"], "props": [[p, render_value(v)] for p, v in r["Properties"].items()]})
+        mreqs.append({"id": i, "op": "rulegen", "resources": rs})
+    mresp = ctx.mp.map(mreqs)
+    mut_jobs, mut_meta = [], []
+    for i, (t, o, c, m) in enumerate(zip(temps, outs, cresp, mresp)):
+        res.evaluations += 1
+        is_known = i >= n
+        kclass = known[i - n]["class"] if is_known else None
+        info = {"template": json.dumps(t), "emitted": o["stdout"][:1500]}
+        if o["code"] != 0:
+            res.stats["c19-rulegen-exit:%s" % o["code"]] += 1
+            continue
+        types_with_props = sorted({r["Type"] for r in t["Resources"].values() if isinstance(r.get("Properties"), dict) and r["Properties"]})
+        if not o["stdout"].strip():
+            if "error" in o["stderr"].lower() or not types_with_props:
+                res.stats["c19-reported-error-or-empty"] += 1
+            else:
+                res.judge_failures.append(dict(info, what="rulegen printed neither rules nor an error (stderr %r)" % o["stderr"][:200], **{"class": kclass or "c19-silent"}))
+            continue
+        ast = c.get("ast", {})
+        if ast.get("ok") is None:
+            res.judge_failures.append(dict(info, what="the emitted text does not parse as a rules file: %s" % ast.get("msg", "")[:200], **{"class": kclass or "c19-parse"}))
+            continue
+        res.nontrivial.add(i)
+        names = [r["name"] for r in ast["ok"]["rules"]]
+        want_names = sorted(tn.replace("::", "_").lower() for tn in types_with_props)
+        if sorted(names) != want_names:
+            res.judge_failures.append(dict(info, what="one rule per resource type with properties expected %s, emitted %s" % (want_names, sorted(names)), **{"class": kclass or "c19-rules"}))
+        obs = vlib.obs_of_impl(c)
+        if obs["kind"] != "ok" or any(s != "PASS" for _, s in obs["rules"]):
+            res.judge_failures.append(dict(info, what="validating the source template against its own generated rules: %s" % (obs.get("rules") or obs),
+                                           **{"class": kclass or ("c19-list-mixed" if c19_list_mixed(t) else "c19-not-pass")}))
+            continue
+        # correspondence: emitted clauses == model rule map
+        em = emitted_rule_map(ast["ok"])
+        mm = {tn.replace("::", "_").lower(): {p: vs for p, vs in pm} for tn, pm in m.get("map", [])}
+        ok = set(em) == set(mm)
+        for tn in em:
+            if not ok:
+                break
+            if set(em[tn]) != set(mm.get(tn, {})):
+                ok = False
+                break
+            for p, vals in em[tn].items():
+                rendered = sorted(render_value(v) for v in vals)
+                if rendered != sorted(mm[tn][p]):
+                    ok = False
+        if not ok and not is_known:
+            res.disagreements.append(dict(info, what="emitted clauses differ from the model's rule map", emitted_map=str(em)[:600], model_map=str(mm)[:600]))
+        # mutations: every scalar occurrence
+        for rn, r in t["Resources"].items():
+            for p, v in (r.get("Properties") or {}).items():
+                if isinstance(v, (str, int, bool)) and not is_known:
+                    fresh = "zz-fresh" if isinstance(v, str) else (not v if isinstance(v, bool) else 987654)
+                    same_tp = [rr["Properties"].get(p) for rr in t["Resources"].values() if rr["Type"] == r["Type"] and isinstance(rr.get("Properties"), dict)]
+                    if any(type(x) == type(fresh) and x == fresh for x in same_tp):
+                        continue
+                    t2 = json.loads(json.dumps(t))
+                    t2["Resources"][rn]["Properties"][p] = fresh
+                    mut_jobs.append({"id": len(mut_jobs), "op": "case", "rules": o["stdout"], "data": json.dumps(t2)})
+                    mut_meta.append((i, r["Type"].replace("::", "_").lower(), rn, p, v, fresh))
+        if len(res.samples) < 2:
+            res.add_sample({"template": t, "emitted": o["stdout"], "verdicts": obs["rules"]})
+    mresp2 = ctx.hp.map(mut_jobs)
+    for (i, rname, rn, p, v, fresh), r in zip(mut_meta, mresp2):
+        res.evaluations += 1
+        res.stats["c19-mutations"] += 1
+        obs = vlib.obs_of_impl(r)
+        st = dict((a, b) for a, b in obs.get("rules", [])) if obs["kind"] == "ok" else {}
+        if st.get(rname) != "FAIL" and not c19_list_mixed(temps[i]):
+            res.judge_failures.append({"what": "changing %s.Properties.%s from %r to the fresh value %r does not make rule %s FAIL (%s)" % (rn, p, v, fresh, rname, st or obs),
+                                       "class": "c19-mutation", "template": json.dumps(temps[i]), "emitted": outs[i]["stdout"][:1500]})
+    return res
+
+
+register("C19", ["Guard.Properties.C19"], run_C19, needs_cli=True)
